@@ -51,6 +51,14 @@ Theorem c01_no_overflow_nothing_lost : forall c s, reachable c s ->
 Proof. exact no_overflow_nothing_lost. Qed.
 Print Assumptions c01_no_overflow_nothing_lost.
 
+(* A drain pass that ended with an empty ring has delivered everything appended before (nothing in the
+   writer's hand at that point): every appended entry was handed to the stream or displaced. *)
+Theorem c01_empty_ring_all_delivered : forall c s, reachable c s ->
+  q (sh s) = [] -> inflight (wr s) = None ->
+  forall e, In e (pushed (gh s)) -> In e (nexts (out (gh s))) \/ In e (displaced (removed (gh s))).
+Proof. exact empty_ring_all_delivered. Qed.
+Print Assumptions c01_empty_ring_all_delivered.
+
 (* Nothing else reaches the stream: an in-band report only directly after a `next` that returned a validation
    error, none at all with a tracing subscriber, nothing after the stream was dropped. *)
 Theorem c01_only_reports_added : forall c s, reachable c s ->
